@@ -99,6 +99,44 @@ Section BlockMapped.
   Qed.
 End BlockMapped.
 
+(* parent references emitted by a walk stay inside the requested range *)
+Section ParentRange.
+  Context {A : Type}.
+  Variable U ss : Z.
+  Variable lookup : Z -> res A.
+  Variable emit : A -> Z -> Z -> Z -> res (list seg).
+  Hypothesis HU : 0 < U.
+  Hypothesis Hss : 0 < ss.
+  Hypothesis emit_parent_range : forall idx a io n segs o m,
+    emit a idx io n = Ok segs -> In (SParent o m) segs ->
+    0 <= idx -> 0 <= io -> 0 < n -> io + n <= U ->
+    (idx * U + io) * ss <= o /\ 0 <= m /\ o + m <= (idx * U + io + n) * ss.
+
+  Theorem walk_parent_range fuel : forall off len p o m,
+    0 <= off -> walk U lookup emit fuel off len = Ok p -> In (SParent o m) p ->
+    off * ss <= o /\ 0 <= m /\ o + m <= (off + Z.max 0 len) * ss.
+  Proof.
+    induction fuel as [|fuel IH]; intros off len p o m Hoff Hrun Hin.
+    - simpl in Hrun. destruct (Z.leb_spec len 0); [|discriminate]. injection Hrun as <-. destruct Hin.
+    - cbn [walk] in Hrun. destruct (Z.leb_spec len 0) as [Hl|Hl].
+      { injection Hrun as <-. destruct Hin. }
+      pose proof (Z.mod_pos_bound off U HU) as Hm.
+      pose proof (Z.div_mod off U ltac:(lia)) as Hdm.
+      set (n := Z.min len (U - off mod U)) in *.
+      assert (Hn : 0 < n <= len /\ off mod U + n <= U) by (subst n; lia).
+      destruct (lookup (off / U)) as [a| |] eqn:Hlk; try discriminate. cbn [bind] in Hrun.
+      destruct (emit a (off / U) (off mod U) n) as [segs| |] eqn:Hem; try discriminate. cbn [bind] in Hrun.
+      destruct (walk U lookup emit fuel (off + n) (len - n)) as [rest| |] eqn:Hrest; try discriminate.
+      cbn [bind] in Hrun. injection Hrun as <-.
+      apply in_app_or in Hin. destruct Hin as [Hin|Hin].
+      + assert (Hidx : 0 <= off / U) by (apply Z.div_pos; lia).
+        destruct (emit_parent_range (off / U) a (off mod U) n segs o m Hem Hin Hidx ltac:(lia) ltac:(lia) ltac:(lia))
+          as (H1 & H2 & H3).
+        replace (off / U * U + off mod U) with off in * by lia. nia.
+      + destruct (IH (off + n) (len - n) rest o m ltac:(lia) Hrest Hin) as (H1 & H2 & H3). nia.
+  Qed.
+End ParentRange.
+
 (* the first m sources of a plan covering [off, off+n) *)
 Lemma firstn_map_zseq {A} (f : Z -> A) o n m :
   0 <= m <= n -> firstn (Z.to_nat m) (map f (zseq o n)) = map f (zseq o m).
